@@ -2,7 +2,7 @@
 # Run once after a fresh restore (offline): builds the driver and the
 # instrumenter and warms the Go build cache (std for go1.26.8, engines).
 set -eu
-cd /verif
+cd "$(dirname "$(readlink -f "$0")")"
 export GOFLAGS=-mod=mod GOPROXY=off GOSUMDB=off GOTOOLCHAIN=local
 mkdir -p bin evidence replays
 go1.26.8 build -o bin/vcheck ./cmd/vcheck
